@@ -58,6 +58,8 @@ def diff_file_vs_object(dec, snap):
     if dec['evtime'] != h['evtime']: bad.append('hdr.event_times')
     if dec['evdisp'] != [x & 0xFFFF for x in h['evdisp']]: bad.append('hdr.event_display')
     if dec['evlab'] != [x[:4] for x in h['evlab']]: bad.append('hdr.event_labels')
+    # the numbers of a saved file are little-endian IEEE: the section must say so (84), whatever tag the source file carried
+    if dec.get('proc', 84) != 84: bad.append('section.processor_type file=%d (the numbers written are Intel: 84)' % dec['proc'])
     for k, nm in (('keylab', 'hdr.key_labels_present'), ('keyblk', 'hdr.key_labels_block'), ('four', 'hdr.four_char_labels')):
         if k in dec and dec[k] != h[k] & 0xFFFF: bad.append('%s object=%r file=%r' % (nm, h[k], dec[k]))
     fo = frames_from_dump(snap)
